@@ -192,7 +192,7 @@ class Ctx:
         unchanged table costs no rebuild).  The committed copy is the table of the
         unchanged tree; evidence records which tables differ from the previous run."""
         fn = os.path.join(LEAN_DIR, "SaVerif", "Gen", name + ".lean")
-        header = "-- GENERATED by harness/props/%s.py from the repository working tree — do not edit\n" % self.pid.lower()
+        header = "-- GENERATED by the translator (gen) of a harness/props module from the repository working tree — do not edit\n"
         content = header + content
         with lake_lock():
             old = open(fn).read() if os.path.exists(fn) else None
